@@ -106,3 +106,8 @@ CHECKS["C04"] = _resmgr("C04",
     "oracle after every request: told/cached cpuset.mems = Allocator.AssignedZone, non-empty, nodes with memory; capacity of every node subset; widened zones delivered in the same reply; "
     "non-trivial = states with at least two memory allocations",
     "9 scenarios, depth 5", "10 scenarios, depth 6")
+CHECKS["C12"] = _resmgr("C12",
+    "explicit-state BFS over histories in which opted-out containers (cpu.preserve / memory.preserve at container, pod and bare level, balloons preserve rule, pinCPU/pinMemory off globally or per balloon type) are created with a "
+    "non-empty runtime cpuset and coexist with containers that cause re-balancing (shared-set shrink/grow, balloon inflate/deflate, zone widening), with updates, synchronize and reconfigure; "
+    "oracle: every adjustment/update addressed to an opted-out container carries no plugin-chosen cpus / no different mems; non-trivial = states with at least two live containers",
+    "10 scenarios, depth 5", "11 scenarios, depth 6")
